@@ -46,6 +46,42 @@ TAILS = {
 }
 
 
+def build_loop_pair(chain):
+    """Execution order differs from text order: the switches sit in a loop body (and in a routine defined ahead of the
+    main script's own switch), followed by literal settings in the mode they establish."""
+    m0, m1 = chain[0], chain[1]
+    sid = [0]
+    doms = {}
+
+    def num(dom):
+        sid[0] += 1
+        doms[sid[0]] = dom
+        return N(sid=sid[0], kind='any')
+    pre = [R.Units(m0)]
+    for r, d in zip(REGS[m0], DOM[m0]):
+        pre.append(R.SetReg(r, num(d)))
+    pre.append(R.SetReg('kelvin', num(('int', 1500, 9000))))
+    tmax = 10 ** 6 if m0 != 'raw' else 10 ** 9
+    pre.append(R.SetReg('duration', num(('real', 0, tmax))))
+    # whole colours are set afresh after each `units m0` (the property is about re-expressing settings, not about
+    # editing one component of a colour that has been through integer raw units and back)
+    lits = [num(d) for d in DOM[m0]]
+    lits2 = [num(d) for d in DOM[m0]]
+    fresh = [R.SetReg(r, v) for r, v in zip(REGS[m0], lits)]
+    fresh2 = [R.SetReg(r, v) for r, v in zip(REGS[m0], lits2)]
+    act = [R.Action('set', [R.Operand('light', R.Str('A'))])]
+    body_with = [R.Units(m0)] + fresh + [R.Units(m1)] + act
+    body_plain = fresh + act
+    # a routine that switches, defined ahead of the place where the main script makes the same switch
+    rt_with = [R.RoutineDef('sw', [], [R.Units(m1)] + act + [R.Units(m0)])]
+    rt_plain = [R.RoutineDef('sw', [], act)]
+    tail_with = [R.Call('sw', [])] + fresh2 + [R.Units(m1)] + act
+    tail_plain = [R.Call('sw', [])] + fresh2 + act
+    tag = '>'.join(chain[:2]) + ' [in a loop and a routine]'
+    return (scripth.Case(rt_with + pre + [R.Repeat('count', body_with, n=N(value=2))] + [R.Units(m0)] + tail_with, tag=tag, doms=doms),
+            scripth.Case(rt_plain + pre + [R.Repeat('count', body_plain, n=N(value=2))] + tail_plain, tag=tag + ' (plain)', doms=doms))
+
+
 def build_pair(chain, timeat=False, tail_kind='light'):
     """-> (case_with_chain, case_plain) sharing the same symbolic literals.  With timeat the pending
     delay is a time-of-day wait instead of a number."""
@@ -110,7 +146,7 @@ def fold_delays(trace):
 
 def pair_worker(args):
     chain = args['chain']
-    ca, cb = build_pair(chain, args.get('timeat', False), args.get('tail', 'light'))
+    ca, cb = build_loop_pair(chain) if args.get('loop') else build_pair(chain, args.get('timeat', False), args.get('tail', 'light'))
     res = report.WorkResult(ca.tag)
     world.start_function_trace()
     res.sites.add('relational')
@@ -161,10 +197,28 @@ def pair_worker(args):
         return None, cons
 
     from fractions import Fraction
+    validated = [0]
+    unsupported = [0]
     for ctx, out in symx.explore(harness, max_paths=args['max_paths'], timeout_ms=args['timeout_ms'],
                                  stats=res.stats, round_mode=mode, deadline=deadline):
         if isinstance(out, symx.Abort):
             res.out_of_bound += 1
+            if str(out.why).startswith('unsupported') and unsupported[0] < 4:
+                # the proxies cannot follow the code here: decide the path so far by concrete runs on its models
+                unsupported[0] += 1
+                ctx.deadline = None
+                vm_ = ctx.path_model()
+                if vm_ is not None:
+                    cv = scripth.concrete_values(ca, ctx.model_values(vm_))
+                    msg = replay_pair(ca, cb, proga, slotsa, progb, slotsb, cv, rgb)
+                    res.extra['unsupported_paths'] = res.extra.get('unsupported_paths', 0) + 1
+                    if msg is not None:
+                        res.violation('%s|concrete %s' % (res.label, scripth._sig_of(msg)),
+                                      'units chain %s: %s\n  found by a concrete run on a model of a path the proxies could not follow (%s)\n  with chain:\n%s'
+                                      % (res.label, msg, out.why, scripth.text_with_values(ca, cv)),
+                                      inputs={'chain': list(chain), 'values': cv, 'script': scripth.text_with_values(ca, cv)}, replayed=True)
+                        break
+                    res.inconclusive.append('%s: path not followed symbolically (%s); concrete run agrees' % (res.label, out.why))
             continue
         vals, na, nb = out
         res.nontrivial += 1
@@ -183,6 +237,21 @@ def pair_worker(args):
             verdict, model = ctx.prove(False)
         if verdict == 'unsat':
             res.reached.add('relational')
+            if validated[0] < 3:
+                # with real rounding, on the plain numbers of a model of this path (round-elision and real arithmetic cannot see
+                # a defect that lives in a rounding step)
+                validated[0] += 1
+                vm_ = ctx.path_model()
+                if vm_ is not None:
+                    cv = scripth.concrete_values(ca, ctx.model_values(vm_))
+                    msg = replay_pair(ca, cb, proga, slotsa, progb, slotsb, cv, rgb)
+                    res.extra['validation_runs'] = res.extra.get('validation_runs', 0) + 1
+                    if msg is not None:
+                        res.violation('%s|validation %s' % (res.label, scripth._sig_of(msg)),
+                                      'units chain %s: %s\n  found by the concrete run (real rounding) on a model of a path the solver had passed\n  with chain:\n%s'
+                                      % (res.label, msg, scripth.text_with_values(ca, cv)),
+                                      inputs={'chain': list(chain), 'values': cv, 'script': scripth.text_with_values(ca, cv)}, replayed=True)
+                        break
             continue
         if verdict == 'unknown':
             res.inconclusive.append('%s: solver unknown' % res.label)
@@ -367,6 +436,7 @@ def run(tier, seed):
         if tail != 'light':
             items += [{'chain': c, 'tail': tail, 'timeout_ms': 10000, 'max_paths': 2000, 'budget_s': 30 if tier == 'quick' else 120}
                       for c in chains if len(c) <= (2 if tier == 'quick' else 3)]
+    items += [{'chain': (a, b), 'loop': True, 'timeout_ms': 10000, 'max_paths': 2000, 'budget_s': 30 if tier == 'quick' else 120} for a in MODES for b in MODES if a != b]
     results, skipped = report.run_pool(dispatch, items, budget_s=common.tier_budget(tier, 80, 1000))
     return report.finish(
         PROP, tier, seed, 'exploration', results, skipped,
